@@ -12,6 +12,7 @@ ToRecv(a, ch) == St("torecv", a, ch, "")
 Select(a, b) == St("select", a, b, "")
 Reset(a, b) == St("reset", a, b, "")
 PollDrop(a) == St("polldrop", a, 0, "")
+Twin(a) == St("twin", a, 0, "")
 IvlNew(p, mode) == St("ivlnew", p, 0, mode)
 Tick == St("tick", 0, 0, "")
 Send(ch) == St("send", ch, 0, "")
@@ -23,7 +24,7 @@ PanicT == St("panic", 0, 0, "")
 Seqs(S, n) == UNION {[1..k -> S] : k \in 1..n}
 (* timer-centric steps: every way a timer can be created, fire, be reset or be dropped before firing *)
 TimerSteps == {Sleep(1), Sleep(2), Sleep(0), ToSleep(3, 1), ToSleep(1, 3), ToSleep(2, 2), ToNever(2), Select(1, 3), Select(3, 1),
-               Reset(3, 1), Reset(1, 3), Reset(2, 2), PollDrop(2), PollDrop(4)}
+               Reset(3, 1), Reset(1, 3), Reset(2, 2), PollDrop(2), PollDrop(4), Twin(2)}
 (* two tasks with up to n timer steps each, both followed by a final sleep (the timer that must not be lost) *)
 ProgsTimers(n) == {[t \in Tasks |-> IF t = 1 THEN p1 \o <<Sleep(2)>> ELSE p2 \o <<Sleep(1)>>] : p1 \in Seqs(TimerSteps, n), p2 \in Seqs(TimerSteps, n)}
 ProgsT1 == ProgsTimers(1)
